@@ -85,6 +85,9 @@ pub enum Op {
     Migrate,
     DropLocal,
     DropShared { slot: u8 },
+    /// Walk the kept result, clone it, drop the original, walk the clone (a clone must not
+    /// depend on the original staying alive, nor on which accessors were called before).
+    CloneDropWalk,
 }
 
 #[derive(Clone, Debug, PartialEq)]
@@ -209,6 +212,7 @@ pub struct Stats {
     pub insert_tokens: u64,
     pub budget_exceeded: u64,
     pub lex_after_crash_same_thread: u64,
+    pub clone_walks: u64,
     pub max_mode_depth: u64,
     pub max_steps_per_byte_x100: u64,
 }
@@ -222,7 +226,7 @@ impl Stats {
             crash_checkpoint_live, crash_in_finalize, crash_at_capacity, crash_after_rollback,
             shrinks_fired, at_capacity_pushes, knob_ops, placement_ops, migrations, drops,
             shares, junk_runs, rollbacks, rollbacks_without_checkpoint, checkpoints,
-            insert_tokens, budget_exceeded, lex_after_crash_same_thread
+            insert_tokens, budget_exceeded, lex_after_crash_same_thread, clone_walks
         );
         self.max_mode_depth = self.max_mode_depth.max(o.max_mode_depth);
         self.max_steps_per_byte_x100 = self.max_steps_per_byte_x100.max(o.max_steps_per_byte_x100);
@@ -236,7 +240,7 @@ impl Stats {
             crash_checkpoint_live, crash_in_finalize, crash_at_capacity, crash_after_rollback,
             shrinks_fired, at_capacity_pushes, knob_ops, placement_ops, migrations, drops,
             shares, junk_runs, rollbacks, rollbacks_without_checkpoint, checkpoints,
-            insert_tokens, budget_exceeded, lex_after_crash_same_thread, max_mode_depth,
+            insert_tokens, budget_exceeded, lex_after_crash_same_thread, clone_walks, max_mode_depth,
             max_steps_per_byte_x100
         );
         j
@@ -250,7 +254,7 @@ impl Stats {
             crash_checkpoint_live, crash_in_finalize, crash_at_capacity, crash_after_rollback,
             shrinks_fired, at_capacity_pushes, knob_ops, placement_ops, migrations, drops,
             shares, junk_runs, rollbacks, rollbacks_without_checkpoint, checkpoints,
-            insert_tokens, budget_exceeded, lex_after_crash_same_thread, max_mode_depth,
+            insert_tokens, budget_exceeded, lex_after_crash_same_thread, clone_walks, max_mode_depth,
             max_steps_per_byte_x100
         );
         s
@@ -732,6 +736,43 @@ fn client_main(shared: Arc<Shared>, mut cs: ClientState) {
             Op::DropLocal => {
                 if cs.local.take().is_some() {
                     shared.m.lock().unwrap().stats.drops += 1;
+                }
+            }
+            Op::CloneDropWalk => {
+                if let Some(l) = cs.local.take() {
+                    let entry = &shared.scenario.sources[l.src];
+                    let variant = ((op_idx + me) % 4) as u32;
+                    let first = outcome_of_result_v(&l.text, &l.res, &mut || {}, variant).key();
+                    let copy = LexResult {
+                        buffer: l.res.buffer.clone(),
+                        errors: l.res.errors.clone(),
+                        #[cfg(feature = "opti_stats")]
+                        max_mode_stack_depth: l.res.max_mode_stack_depth,
+                    };
+                    drop(l.res);
+                    // something else takes the freed blocks
+                    let filler: Vec<u64> = vec![0x5A5A_5A5A_5A5A_5A5A; 64];
+                    let second = outcome_of_result_v(&l.text, &copy, &mut || {}, (variant + 1) % 4).key();
+                    drop(filler);
+                    let mut st = shared.m.lock().unwrap();
+                    st.stats.drops += 1;
+                    st.stats.clone_walks += 1;
+                    for (which, key) in [("original", first), ("clone after the original was dropped", second)] {
+                        st.outcomes.push((me, op_idx, key.clone()));
+                        if key != entry.expect {
+                            st.violations.push(Violation {
+                                client: me,
+                                op: op_idx,
+                                what: "read-shared",
+                                src: l.src,
+                                expected: entry.expect.clone(),
+                                got: key,
+                                detail: format!("walking the {which}"),
+                            });
+                            st.abort = true;
+                            break;
+                        }
+                    }
                 }
             }
             Op::DropShared { slot } => {
